@@ -90,7 +90,7 @@ def run_real(n, alpha, eps, q0, seed, ops):
                     _, r, _, ended, _ = env.step(np.int64(0))
                     env._out_queue.get_nowait()
                     r = float(r) if not ended else "session-ended"
-            except ArithmeticError as e:      # e.g. ZeroDivisionError with Python floats
+            except Exception as e:  # noqa: BLE001  (ZeroDivisionError with Python floats at a zero reference; anything else is an outcome the oracle judges)
                 r = type(e).__name__
                 while not env._out_queue.empty():
                     env._out_queue.get_nowait()
